@@ -72,7 +72,9 @@ RULE = (
     'angstrom and nm), beams = random '
     'directions (plus axis-aligned, nearly parallel, nearly antiparallel and integer-valued pairs handed over as int64/int32/float32 '
     'arrays) times lengths log-uniform in '
-    '0.1..1e3 m, scalar and 1-d operands; hkl: R and U uniform on SO(3) from random unit quaternions (given as '
+    '0.1..1e3 m, scalar and 1-d operands; hkl: R and U uniform on SO(3) from random unit quaternions, and with probability 0.3 '
+    'near-special: exactly the identity, the identity perturbed by 1e-12..1e-4 rad about a random axis, exactly pi or pi/2 about a '
+    'coordinate axis and those perturbed by 1e-12..1e-4 rad; near-diagonal and near-permutation B (given as '
     'rotation3 or as linear_transform3), B = O1*diag(s1,s2,s3)*O2 with s1 in 0.01..1 1/angstrom, condition number '
     's1/s3 log-uniform in 1..1e6 and s2 log-uniform between (also s2=s1 and s2=s3), exactly singular UB for the '
     'degenerate branch, integer-valued B and Q handed over as int64/int32/float32 arrays; Q_vec_from_Q_elements with component '
@@ -171,7 +173,38 @@ def _err(e: Exception) -> str:
 
 # ---- generators -------------------------------------------------------------------------------
 
-def rand_quat(rng):
+def _axis_angle_quat(axis, angle):
+    """scipp stores rotation3 coefficients as (x, y, z, w)"""
+    axis = np.asarray(axis, dtype=np.float64)
+    axis = axis / np.linalg.norm(axis)
+    return np.array([*(axis * math.sin(angle / 2)), math.cos(angle / 2)])
+
+
+def _quat_mul(a, b):
+    ax, ay, az, aw = a
+    bx, by, bz, bw = b
+    return np.array([aw * bx + ax * bw + ay * bz - az * by, aw * by - ax * bz + ay * bw + az * bx,
+                     aw * bz + ax * by - ay * bx + az * bw, aw * bw - ax * bx - ay * by - az * bz])
+
+
+def rand_quat(rng, special=0.3):
+    """unit quaternion: uniform on SO(3), or (with probability `special`) a NEAR-SPECIAL rotation — exactly the identity,
+    the identity perturbed by 1e-12..1e-4 rad about a random axis, a rotation by exactly pi or pi/2 about a coordinate
+    axis, or one of those perturbed by 1e-12..1e-4 rad"""
+    if rng.random() < special:
+        kind = rng.choice(['identity', 'near-identity', 'near-identity', 'near-identity', 'axis-pi', 'axis-half-pi', 'near-axis'])
+        if kind == 'identity':
+            return np.array([0.0, 0.0, 0.0, 1.0])
+        small = lambda: _axis_angle_quat([rng.gauss(0, 1) for _ in range(3)], 10.0 ** rng.uniform(-12, -4))  # noqa: E731
+        if kind == 'near-identity':
+            return small()
+        ax = np.eye(3)[rng.randrange(3)] * rng.choice([1.0, -1.0])
+        base = np.array([*ax, 0.0]) if kind == 'axis-pi' or (kind == 'near-axis' and rng.random() < 0.5) \
+            else np.array([*(ax * math.sqrt(0.5)), math.sqrt(0.5)])
+        if kind == 'near-axis':
+            q = _quat_mul(small(), base)
+            return q / np.linalg.norm(q)
+        return base
     while True:
         q = np.array([rng.gauss(0, 1) for _ in range(4)])
         n = np.linalg.norm(q)
@@ -246,6 +279,16 @@ def b_matrix(rng):
             m = np.array([[float(rng.randint(-5, 5)) for _ in range(3)] for _ in range(3)])
             if abs(np.linalg.det(m)) > 0.5:
                 return m, 'int-valued'
+    if rng.random() < 0.12:
+        # near-diagonal / near-permutation B (orthogonal cells in standard or permuted setting, slightly off)
+        d = np.diag([lu(rng, 0.01, 1.0) * rng.choice([1.0, -1.0]) for _ in range(3)])
+        off = np.array([[0.0 if i == j else rng.gauss(0, 1) * 10.0 ** rng.uniform(-12, -4) * abs(d[i, i]) for j in range(3)] for i in range(3)])
+        m = d + (off if rng.random() < 0.8 else 0.0)
+        if rng.random() < 0.5:
+            perm = [0, 1, 2]
+            rng.shuffle(perm)
+            return m[:, perm], 'near-permutation'
+        return m, 'near-diagonal'
     cond = 10 ** rng.uniform(0, 6)
     s1 = lu(rng, 0.01, 1.0)
     s3 = s1 / cond
